@@ -332,7 +332,11 @@ func zeroVal(k *Kind) Val {
 	switch k.K {
 	case "int", "big", "err", "ptr", "func", "obj", "float":
 		if k.K == "obj" {
-			return &ObjV{K: k, ID: Zero, Ghost: map[string]Val{}}
+			g := map[string]Val{}
+			for _, d := range ghostDecls[k.Name] {
+				g[d.Name] = zeroVal(ghostKind(d.Kind))
+			}
+			return &ObjV{K: k, ID: Zero, Ghost: g}
 		}
 		if k.K == "ptr" {
 			return &RefV{Nil: true}
